@@ -14,6 +14,43 @@ LIB_FAIL_JOBS = [("martini2", ["PMA:3"]), ("martini2", ["PMMA:2"]), ("gromos53A6
                  ("oplsaaLigParGen", ["PS:3"]), ("gromos53A6", ["PS:2"])]
 
 
+def _wrap(g, tokens, sep):
+    """tokens joined by sep, wrapped over 1-4 lines at drawn positions (sequence files are usually line-wrapped)"""
+    n = len(tokens)
+    cuts = sorted(set(g.sample(range(1, n), min(n - 1, g.choice([0, 1, 1, 2, 3]))))) if n > 1 else []
+    lines, prev = [], 0
+    for c in cuts + [n]:
+        lines.append(sep.join(tokens[prev:c]))
+        prev = c
+    return lines
+
+
+def txt_graph(g, rg):
+    """.txt sequence file (space separated residue names, wrapped) of a plain linear residue graph"""
+    lines = _wrap(g, list(rg["resnames"]), " ")
+    return {"kind": "file", "ext": ".txt", "text": "\n".join(lines) + "\n", "lines": len(lines)}
+
+
+def dna_file_graph(g, rg, fmt=None):
+    """.fasta / .ig description of a DNA residue graph made by dna_graph (linear) or dna_ring_graph (.ig only)"""
+    letters = [r[1] for r in rg["resnames"]]
+    fmt = fmt or ("ig" if rg["shape"] == "ring" else g.choice(["ig", "fasta"]))
+    lines = _wrap(g, letters, "")
+    if fmt == "fasta":
+        return {"kind": "file", "ext": ".fasta", "text": "> DNA strand\n" + "\n".join(lines) + "\n", "lines": len(lines)}
+    lines[-1] += "2" if rg["shape"] == "ring" else "1"
+    head = g.choice(["; DNA\n", "; a comment\n; DNA sequence\n", "; DNA ; twice\n"])
+    return {"kind": "file", "ext": ".ig", "text": head + "strand_x\n" + "\n".join(lines) + "\n", "lines": len(lines)}
+
+
+ONE_LETTER_AA = {"GLY": "G", "ALA": "A", "LYS": "K", "SER": "S", "VAL": "V", "ASP": "D", "PHE": "F", "CYS": "C"}
+
+
+def protein_fasta_graph(g, rg):
+    lines = _wrap(g, [ONE_LETTER_AA[r] for r in rg["resnames"]], "")
+    return {"kind": "file", "ext": ".fasta", "text": "> PROTEIN chain\n" + "\n".join(lines) + "\n", "lines": len(lines)}
+
+
 def make_op(ff, rg, g, out="out.itp", graph_kind=None, **kw):
     kind = graph_kind or ("seq" if (rg["shape"] == "linear" and g.random() < 0.4) else "json")
     if kind == "seq" and (rg["shape"] != "linear" or rg.get("tags") or rg.get("edge_attrs") or rg.get("from_itp")
@@ -21,6 +58,8 @@ def make_op(ff, rg, g, out="out.itp", graph_kind=None, **kw):
         kind = "json"
     graph = {"kind": "seq", "seq": ffgen.seq_list(rg)} if kind == "seq" else \
         {"kind": "json", "text": ffgen.graph_json(rg)}
+    if kind == "seq" and graph_kind is None and len(rg["resnames"]) >= 2 and g.random() < 0.3:
+        graph = txt_graph(g, rg)
     op = {"op": "gen_params", "name": "POL", "files": ffgen.render_files(ff), "graph": graph, "out": out,
           "resgraph": rg}
     op.update(kw)
